@@ -116,7 +116,12 @@ func main() {
 	unconfigured := pki.NewRoot(pki.CertOpts{CN: "C04 unconfigured signer"})
 	sibling := root.Issue(pki.CertOpts{RawSubject: ecInt.Cert.RawSubject, IsCA: true})
 	siblingRSA := root.Issue(pki.CertOpts{RawSubject: rsaInt.Cert.RawSubject, IsCA: true, Key: pki.RSAKey(1)})
-	l := &lab{run: run, org: origin.New(), scratch: scratch, trusted: []*x509.Certificate{crlCA.Cert, crlCArsa.Cert}}
+	// (Go adds a subjectKeyIdentifier to CA certificates by itself, so this is a non-CA CRL signer)
+	noSKISigner := root.Issue(pki.CertOpts{CN: "C04 configured signer without SKI", NoSKI: true, KeyUsage: x509.KeyUsageCRLSign | x509.KeyUsageDigitalSignature})
+	if len(noSKISigner.Cert.SubjectKeyId) != 0 {
+		panic("harness: signer unexpectedly has a subject key identifier")
+	}
+	l := &lab{run: run, org: origin.New(), scratch: scratch, trusted: []*x509.Certificate{crlCA.Cert, crlCArsa.Cert, noSKISigner.Cert}}
 	defer l.org.Close()
 
 	mkSpec := func(ca *pki.CA, alg crlgen.Alg, aki string, n int) *crlgen.Spec {
@@ -267,6 +272,16 @@ func main() {
 			}},
 		)
 	}
+	// signer candidates must be selected by a real match: an AKI with a zero-length key identifier
+	// must not select configured signers that have no subject key identifier at all
+	scs = append(scs, signerCase{"signer-without-ski.aki-empty-keyid", "CRL under the issuer's name with a zero-length AKI keyIdentifier, signed by a configured signer that has no subjectKeyIdentifier", func() ([]byte, *pki.CA, []*pki.CA) {
+		s := mkSpec(ecInt, crlgen.AlgFor(noSKISigner.Key), "absent", 2)
+		s.Exts = [][]byte{der.Ext("2.5.29.35", false, der.Seq(der.ImplicitPrim(0, nil))), crlgen.CRLNumberExt(big.NewInt(3))}
+		return s.Build(noSKISigner.Key).DER, ecInt, []*pki.CA{root}
+	}}, signerCase{"signer-without-ski.aki-absent", "CRL under the issuer's name without AKI, signed by a configured signer with another name and no subjectKeyIdentifier", func() ([]byte, *pki.CA, []*pki.CA) {
+		s := mkSpec(ecInt, crlgen.AlgFor(noSKISigner.Key), "absent", 2)
+		return s.Build(noSKISigner.Key).DER, ecInt, []*pki.CA{root}
+	}})
 	for i, sc := range scs {
 		if i%sn != si {
 			continue
